@@ -85,6 +85,9 @@ def array_level(tier, seed):
             if b > a:
                 ops.append([[41], _view_desc(root, v)])
                 exp.append(('fml', _fml_desc(v), 'first/middle/last of x[%d:%d], n=%d' % (a, b, n)))
+                # sum() of the view on its own bytes vs the model's masked edge counts + table sum
+                ops.append([[46], [0, len(v._data), int(v._start_index), int(v._stop_index)], [int(x) for x in v._data]])
+                exp.append(('bytes', [int(v.sum())], 'sum() of x[%d:%d], n=%d' % (a, b, n)))
             if not np.array_equal(np.asarray(v), ref[a:b]) or len(v) != b - a or int(v.sum()) != int(ref[a:b].sum()):
                 bad('values/len/sum of x[%d:%d] differ from NumPy (n=%d)' % (a, b, n))
             # nested slice
